@@ -35,7 +35,7 @@ func Trigger(name string, p *Plan, r *RunResult) bool {
 		return cmd.Op == "BatchGet" && (p.World.SDKs[cmd.C] == "v1" || (p.Twin == "sdk" && cmd.C%2 == 0))
 	case "number-sort-key-order":
 		for _, f := range r.Fails {
-			if f.Rule == "C02.order" && (strings.Contains(f.Msg, "sort key type N") || strings.Contains(f.Msg, "sort key type B")) {
+			if f.Rule == "C02.order" && (strings.Contains(f.Msg, "sort key type N, ordered differently by value and by text") || strings.Contains(f.Msg, "sort key type B")) {
 				return true
 			}
 		}
